@@ -231,3 +231,34 @@ pub fn gnp_events<W: Write>(em: &mut Emitter<W>, nmax: i32, nseeds: u64, thoroug
     });
     em.emit(json!({"parent": 0, "op": {"k": "karate"}, "r": r}));
 }
+
+/// Value semantics of Edge and Node over a small universe (spec/ValueTypes.tla).
+pub fn value_events<W: Write>(em: &mut Emitter<W>) {
+    use graphrs::{Edge, Node};
+    use std::collections::hash_map::DefaultHasher;
+    use std::hash::{Hash, Hasher};
+    fn h<T: Hash>(x: &T) -> u64 {
+        let mut s = DefaultHasher::new();
+        x.hash(&mut s);
+        s.finish()
+    }
+    let mk = |u: i32, v: i32, w: i64, a: i32| Edge::<i32, i32> { u, v, weight: crate::model::w_to_f(w), attributes: if a == 0 { None } else { Some(a) } };
+    let ej = |e: &Edge<i32, i32>| json!([e.u, e.v, crate::model::f_to_w(e.weight), e.attributes.unwrap_or(0)]);
+    let mut edges = vec![];
+    for u in 1..=3 { for v in 1..=3 { for w in [-1i64, 1] { for a in [0, 1] { edges.push(mk(u, v, w, a)); } } } }
+    let edge1: Vec<Value> = edges.iter().map(|e| json!({"e": ej(e), "ordered": ej(&e.ordered()), "reversed": ej(&e.reversed())})).collect();
+    let mut edge2 = vec![];
+    for a in &edges { for b in &edges {
+        edge2.push(json!({"a": ej(a), "b": ej(b), "eq": a == b, "cmp": match a.cmp(b) { std::cmp::Ordering::Less => -1, std::cmp::Ordering::Equal => 0, _ => 1 },
+            "same_hash": h(a) == h(b)}));
+    } }
+    let mut nodes = vec![];
+    for n in 1..=3 { for a in [0, 1] { nodes.push(Node::<i32, i32> { name: n, attributes: if a == 0 { None } else { Some(a) } }); } }
+    let nj = |n: &Node<i32, i32>| json!([n.name, n.attributes.unwrap_or(0)]);
+    let mut node2 = vec![];
+    for a in &nodes { for b in &nodes {
+        node2.push(json!({"a": nj(a), "b": nj(b), "eq": a == b, "cmp": match a.cmp(b) { std::cmp::Ordering::Less => -1, std::cmp::Ordering::Equal => 0, _ => 1 },
+            "same_hash": h(a) == h(b)}));
+    } }
+    em.emit(json!({"parent": 0, "op": {"k": "values"}, "edge1": edge1, "edge2": edge2, "node2": node2}));
+}
